@@ -22,6 +22,8 @@ pub fn run_case(c: &Sx) -> Sx {
         "parsetoks" => parsetoks(v),
         "parsesrc" => parsesrc(v),
         "timeparse" => timeparse(v),
+        "print" => print_term(v),
+        "roundtrip" => roundtrip(v),
         "asciiclasses" => ascii_classes(),
         h => panic!("harness: unknown op {h}"),
     }
@@ -480,4 +482,48 @@ fn timeparse(v: &[Sx]) -> Sx {
         }
     }
     l(vec![a("timed"), a(verdict), n(ntok), n(best as usize), hk])
+}
+
+// --------------------------------------------------------------------------------------- printer
+// (print T): tokens of to_string(T)
+fn print_term(v: &[Sx]) -> Sx {
+    let mut imp = Importer::default();
+    let t = imp.term(&v[1]);
+    let s: &'static str = Box::leak(t.to_string().into_boxed_str());
+    match tokenize(None, s) {
+        Ok(ts) => {
+            let mut r = vec![a("printed"), a(&hex_encode(s.as_bytes()))];
+            r.extend(ts.iter().map(token_sx));
+            l(r)
+        }
+        Err(_) => l(vec![a("printed-untokenizable"), a(&hex_encode(s.as_bytes()))]),
+    }
+}
+
+// (roundtrip x:<src>): parse, print, tokenize + parse the printed text in the same (empty) scope.
+fn roundtrip(v: &[Sx]) -> Sx {
+    let src = match String::from_utf8(hex_decode(v[1].atom())) {
+        Ok(s) => s,
+        Err(_) => return l(vec![a("notutf8")]),
+    };
+    let toks = match tokenize(None, &src) {
+        Ok(t) => t,
+        Err(_) => return l(vec![a("rejected")]),
+    };
+    let t = match parse(None, &src, &toks[..], &[]) {
+        Ok(t) => t,
+        Err(_) => return l(vec![a("rejected")]),
+    };
+    let printed = t.to_string();
+    let original = Exporter::default().term(&t, false);
+    let toks2 = match tokenize(None, &printed) {
+        Ok(t) => t,
+        Err(_) => return l(vec![a("printed-rejected"), a("lex"), a(&hex_encode(printed.as_bytes())), original]),
+    };
+    let mut tl = vec![a("toks")];
+    tl.extend(toks2.iter().map(token_sx));
+    match parse(None, &printed, &toks2[..], &[]) {
+        Ok(t2) => l(vec![a("reparsed"), a(&hex_encode(printed.as_bytes())), original, Exporter::default().term(&t2, false), l(tl)]),
+        Err(_) => l(vec![a("printed-rejected"), a("parse"), a(&hex_encode(printed.as_bytes())), original, l(tl)]),
+    }
 }
